@@ -224,7 +224,7 @@ def run(idx: ProgramIndex, rep: Report, tier: str):
                 int_path = any(getattr(s_, "kind", "") == "assume" and s_.truth and "isinstance" in src(s_.node) and "int" in src(s_.node) and "slice" not in src(s_.node) for s_, _e in seq)
                 if not int_path:
                     probs.append("a branch that was not tested to have an integer event index builds the covariance as a diagonal of selected variances: for an index tensor with a repeated entry the copies of one variable come out independent")
-            elif n_last != 2 or "rest*" not in flat:
+            elif n_last != 2 or not ("rest*" in flat or "rest" in flat):
                 probs.append("a branch indexes the covariance with %s: the event index does not reach both axes" % flat)
             else:
                 forms_seen.add("both")
@@ -288,6 +288,7 @@ def run(idx: ProgramIndex, rep: Report, tier: str):
     positional_dims_on_full_batch(idx, rep, M)
     kl_assembly(idx, rep)
     conditional_attributes(idx, rep)
+    getitem_index_forms(idx, rep, M)
 
 
 # ---- C10-5: a Cholesky factor carried over into a new distribution ------------------------------------------------------
@@ -767,3 +768,59 @@ def _tests_around(fn: ast.AST, target: ast.AST):
         return False
     rec(fn, [])
     return out
+
+
+# ---- C10-10 --------------------------------------------------------------------------------------------------------
+def getitem_index_forms(idx: ProgramIndex, rep: Report, M: ClassInfo):
+    """Two facts about index expressions that the dimension bookkeeping of MultivariateNormal.__getitem__ depends on:
+    (a) advanced indices (tensors, lists) that share one subscript are zipped element-wise: the caller's batch indices (`*rest_idx`)
+        may contain index tensors, so an event index TENSOR must not share a subscript with them - the covariance rows would be paired
+        with batch members while the columns are not;
+    (b) `None` entries add a dimension instead of consuming one: before `len(idx)` is compared with the rank of the mean they have to be
+        taken out (or rejected)."""
+    rep.rule("C10-10", "MultivariateNormal.__getitem__: an event index tensor never shares a subscript with the caller's batch indices, and None entries are not counted as indexed dimensions")
+    fi = idx.method(M, "__getitem__", own=True)
+    ip = fi.params[1]
+    # the names split off the caller's index
+    rest = last = None
+    for a in ast.walk(fi.node):
+        if isinstance(a, ast.Assign) and isinstance(a.targets[0], ast.Name) and isinstance(a.value, ast.Subscript) and isinstance(a.value.value, ast.Name) and a.value.value.id == ip:
+            sl = a.value.slice
+            if isinstance(sl, ast.Slice) and sl.lower is None and src(sl.upper) == "-1":
+                rest = a.targets[0].id
+            elif src(sl) == "-1":
+                last = a.targets[0].id
+    if rest is None or last is None:
+        raise AnalysisError("C10-10: MultivariateNormal.__getitem__ no longer splits the index into idx[:-1] and idx[-1] (anchor vanished)")
+    n = 0
+    for x in ast.walk(fi.node):
+        if not (isinstance(x, ast.Subscript) and isinstance(x.slice, ast.Tuple)):
+            continue
+        elts = x.slice.elts
+        if not any(isinstance(e, ast.Starred) and isinstance(e.value, ast.Name) and e.value.id == rest for e in elts):
+            continue
+        if not any(isinstance(e, ast.Name) and e.id == last for e in elts):
+            continue
+        n += 1
+        # what is known about the event index here
+        known = []
+        for t, br in _tests_around(fi.node, x):
+            if not br:
+                continue
+            parts = t.values if isinstance(t, ast.BoolOp) and isinstance(t.op, ast.And) else [t]
+            for q in parts:  # (a disjunction does not establish any of its members)
+                if isinstance(q, ast.Call) and isinstance(q.func, ast.Name) and q.func.id == "isinstance" and len(q.args) == 2 and src(q.args[0]) == last:
+                    known.append(norm(q))
+        ok = any("int" in k or "slice" in k for k in known)
+        anon = norm(x).replace(rest, "_").replace(last, "_")
+        rep.add("C10-10", "%s:MultivariateNormal.__getitem__[batch apart: %s]" % (M.module.name, anon[:70]), "%s:%d" % (fi.module.relpath, x.lineno), ok,
+                "the event index is an integer or a slice on this path (%s)" % "; ".join(known) if ok else
+                "`%s` applies the caller's batch indices and the event index `%s` - a tensor or list on this path - in one subscript: an index tensor over a batch dimension is zipped with the rows, the columns are then indexed alone (`[..., %s]`): the covariance is not symmetric and not the covariance of the selected components" % (norm(x)[:70], last, last), {})
+    rep.floor("C10-10", "covariance subscripts with batch and event indices", n, 2)
+    # (b)
+    first_len = min([c.lineno for c in ast.walk(fi.node) if isinstance(c, ast.Call) and isinstance(c.func, ast.Name) and c.func.id == "len" and c.args and src(c.args[0]) == ip] or [0])
+    handles_none = any((isinstance(c, ast.Compare) and any(isinstance(o, (ast.Is, ast.IsNot, ast.In, ast.NotIn)) for o in c.ops) and any(isinstance(k, ast.Constant) and k.value is None for k in [c.left] + c.comparators))
+                       for c in ast.walk(fi.node))
+    rep.add("C10-10", "%s:MultivariateNormal.__getitem__[None entries]" % M.module.name, "%s:%d" % (fi.module.relpath, first_len or fi.node.lineno), handles_none,
+            "None entries are handled before the index is counted" if handles_none else
+            "len(%s) is compared with the rank of the mean although a None entry (new axis) adds a dimension instead of consuming one: dist[None, 0] (batch (3,)) takes the branch for an indexed event dimension and returns diag(diag(C[0])) - all cross-covariances dropped, silently; other placements raise" % ip, {})
